@@ -1,0 +1,109 @@
+"""
+Verification hooks: an event log for trace validation against the TLA+
+specification of readers, writers and checks.
+
+Everything in here is a no-op unless the environment variable
+``CUTPLACE_VERIF`` is set to ``1``; events are appended as JSON lines to the
+file named by ``CUTPLACE_VERIF_TRACE``.
+"""
+import json
+import os
+
+ENABLED = os.environ.get("CUTPLACE_VERIF") == "1"
+_TRACE_PATH = os.environ.get("CUTPLACE_VERIF_TRACE")
+_seq = 0
+_ids = {}
+_counts = {}
+_interned = {}
+_keep = []
+
+
+def _id_of(kind, some_object):
+    key = (kind, id(some_object))
+    if key not in _ids:
+        _counts[kind] = _counts.get(kind, 0) + 1
+        _ids[key] = _counts[kind]
+        _keep.append(some_object)  # prevent reuse of id()
+    return _ids[key]
+
+
+def _check_kind(check):
+    if hasattr(check, "_row_key_to_location_map"):
+        return {"t": "u", "fields": list(check._field_names_to_check)}
+    if hasattr(check, "_distinct_value_to_count_map"):
+        return {"t": "d", "field": check._field_name_to_count, "expression": check._expression}
+    return {"t": "o", "cls": type(check).__name__}
+
+
+def _check_size(check):
+    if hasattr(check, "_row_key_to_location_map"):
+        return len(check._row_key_to_location_map)
+    if hasattr(check, "_distinct_value_to_count_map"):
+        return len(check._distinct_value_to_count_map)
+    return -1
+
+
+def _values(cid_id, cid, row):
+    """Per field, a small number standing for the cell's text (the same text gives the same number)."""
+    if not isinstance(row, (list, tuple)) or len(row) != len(cid.field_names):
+        return None
+    result = []
+    for index, cell in enumerate(row):
+        pool = _interned.setdefault((cid_id, index), {})
+        try:
+            result.append(pool.setdefault(cell, len(pool) + 1))
+        except TypeError:
+            result.append(0)
+    return result
+
+
+def _error(error):
+    if error is None:
+        return None
+    result = {"cls": type(error).__name__}
+    location = getattr(error, "location", None)
+    if location is not None:
+        result["line"] = location.line
+        result["cell"] = getattr(location, "_cell", 0)
+    see_also = getattr(error, "see_also_location", None)
+    if see_also is not None:
+        result["see"] = see_also.line
+    return result
+
+
+def emit(event, validator, row=None, error=None, **fields):
+    """Log ``event`` of ``validator`` (a reader or writer) with the cheap scalar state around it."""
+    global _seq
+    if not ENABLED or _TRACE_PATH is None:
+        return
+    _seq += 1
+    cid = validator.cid
+    cid_id = _id_of("cid", cid)
+    checks = [cid.check_map[name] for name in cid.check_names]
+    record = {
+        "seq": _seq,
+        "pid": os.getpid(),
+        "ev": event,
+        "cid": cid_id,
+        "sid": _id_of("sess", validator),
+        "sizes": [_check_size(check) for check in checks],
+    }
+    if event == "open":
+        record["kinds"] = [_check_kind(check) for check in checks]
+        record["fields"] = list(cid.field_names)
+        record["header"] = cid.data_format.header
+        record["format"] = cid.data_format.format
+    location = validator.location
+    if location is not None:
+        record["line"] = location.line
+    if hasattr(validator, "accepted_rows_count"):
+        record["acc"] = validator.accepted_rows_count
+        record["rej"] = validator.rejected_rows_count
+    if row is not None:
+        record["items"] = len(row) if isinstance(row, (list, tuple)) else -1
+        record["v"] = _values(cid_id, cid, row)
+    if error is not None:
+        record["error"] = _error(error)
+    record.update(fields)
+    with open(_TRACE_PATH, "a", encoding="utf-8") as trace_file:
+        trace_file.write(json.dumps(record) + "\n")
